@@ -45,6 +45,7 @@ def run(ck):
     ck.rule("C01.R17", "`the emitting thread's current collector` is resolved as C02 says: get_default's fast path iff no scope exists anywhere, else the thread's scoped default or the published global one (as C02.R2/R3/R4)", floor=10)
     ck.rule("C01.R18", "no registered callsite is lost to later re-evaluations: the registry's lock-free push (as C04.R3)", floor=5)
     ck.rule("C01.R19", "the questions the macros ask their Dispatch are the collector's: Dispatch::enabled / register_callsite / max_level_hint forward 1:1 (as C09.R4)", floor=3)
+    ck.rule("C01.R20", "the level comparisons in front of a collector (callsite level vs static / published maximum) use a correct total order (as C19.R1/R2/R4)", floor=60)
     ck.rule("C01.R8", "STATIC_MAX_LEVEL table under each max_level feature, each release_max_level feature and pairs of both, with and without debug assertions", floor=30)
     ck.rule("C01.R11", "collector wrappers forward the interest / enabled / hint questions to the wrapped collector (as C09.R1/R2)", floor=20)
     ck.rule("C01.R10", "interest rebuilds, collector registration and first-hit registration are serialised by the registry lock (as C04.R1)", floor=3)
@@ -77,6 +78,8 @@ def run(ck):
     from rules import C04 as _C04
     _C04.r4(ck, F, rid="C01.R16")
     _C04.r3(ck, F, rid="C01.R18")
+    from rules import C19 as _C19
+    _C19.order_rules(ck, F, "C01.R20")
     C09.dispatch_forwarding(ck, F, rid="C01.R19", only={"enabled", "register_callsite", "max_level_hint"})
     from rules import C02 as _C02
     _C02.r1(ck, F, rid="C01.R17")      # the count behind the fast path: one RMW per guard, symmetric
